@@ -128,9 +128,10 @@ func invariant(x *mc.Exec, sc scenario) {
 				rs.arrivedAt = now
 				rs.waited = inHeap[rs.a.Name] // pushed to the heap during its critical section
 				// requests that may occupy a queue place at this instant: pushed earlier and
-				// not yet answered (granted, or returned from Enqueue after their TTL)
+				// not yet back from Enqueue (a waiter that was just granted keeps its place in
+				// the queue's bookkeeping until its own goroutine has picked the grant up)
 				for _, o := range st.reqs {
-					if o != rs && o.waited && !o.granted && !o.returned {
+					if o != rs && o.waited && !o.returned {
 						rs.occupiedAtArrival++
 					}
 				}
